@@ -255,7 +255,7 @@ fn run_family(bytes: &[u8], ctx: &Ctx) -> CaseInfo {
     eval(&a, &b, &c, &extra, ctx)
 }
 
-/// Long spines: lists / improper lists / nested constructors of up to 400 (thorough 2000)
+/// Long spines: lists / improper lists / nested constructors of up to 400 (thorough 1000)
 /// levels; b and c differ from a in one element, in the tail, or in length by one.
 fn run_long(bytes: &[u8], ctx: &Ctx) -> CaseInfo {
     use crate::gen::scale::{self, big_term, elements, SPINES};
@@ -315,7 +315,7 @@ fn fixed_tails(ctx: &Ctx) -> CaseInfo {
 pub fn def() -> PropertyDef {
     PropertyDef {
         id: "C21",
-        rule: "triples (a, b, c) of terms of depth <= 3 over literals of every kind, 4 variables, nested proper/improper lists and 6 compound kinds, where b is a, a one-point mutation of a or independent, and c is b, a mutation of b, or a; plus 0-2 extra terms. Oracle: structural equality on the AST with identity on variables for == (reflexive, symmetric, transitive on the triple, rebuilt copies and clones), equal => equal DefaultHasher digests, and a Vec(+tail) model for is_list/is_empty/is_improper/head/tail/iter/into_iter/Index/IndexMut/contains/from_vec/from_array/collect/extend (proper lists)/improper_from_vec/improper_from_array/iter_mut and list Display. Non-trivial = nesting >= 2, an improper list, or a cross-kind comparison; distinct = hash of the printed case. Family `long-spines`: the same oracle on lists / improper lists / successor, Pair, Node and head nestings of up to 400 (thorough 2000) levels, where b and c differ from a in one element, in the last element, in the tail, or in length by one",
+        rule: "triples (a, b, c) of terms of depth <= 3 over literals of every kind, 4 variables, nested proper/improper lists and 6 compound kinds, where b is a, a one-point mutation of a or independent, and c is b, a mutation of b, or a; plus 0-2 extra terms. Oracle: structural equality on the AST with identity on variables for == (reflexive, symmetric, transitive on the triple, rebuilt copies and clones), equal => equal DefaultHasher digests, and a Vec(+tail) model for is_list/is_empty/is_improper/head/tail/iter/into_iter/Index/IndexMut/contains/from_vec/from_array/collect/extend (proper lists)/improper_from_vec/improper_from_array/iter_mut and list Display. Non-trivial = nesting >= 2, an improper list, or a cross-kind comparison; distinct = hash of the printed case. Family `long-spines`: the same oracle on lists / improper lists / successor, Pair, Node and head nestings of up to 400 (thorough 1000) levels, where b and c differ from a in one element, in the last element, in the tail, or in length by one",
         assumptions: vec!["extend is exercised on proper lists only (documented precondition)", "Display of compounds (Debug-derived) is not modelled"],
         families: vec![
             Family { name: "terms", max_len: 120, quick: 400_000, thorough: 10_000_000, run: run_family },
